@@ -137,6 +137,12 @@ fn parse_op(tok: &str) -> Option<Op> {
             false,
             TimeSignature::new_simple_quadruple(),
         )),
+        ["T", t, b, omit, num] => Op::T(TimingPoint::new(
+            f64_of_hex(t),
+            f64_of_hex(b),
+            *omit == "1",
+            TimeSignature::new(num.parse().unwrap_or(4)).unwrap_or_else(|_| TimeSignature::new_simple_quadruple()),
+        )),
         ["D", t, sv, ticks] => Op::D(DifficultyPoint::new(
             f64_of_hex(t),
             if *ticks == "1" { 1.0 } else { f64::NAN },
@@ -581,6 +587,19 @@ fn clean_line(line: &str) -> Option<CleanLine> {
     Some(CleanLine { time, beat, meter, bank, custom, volume, timing, kiai, omit })
 }
 
+/// lines the legacy rules certainly reject although every field is a plain number: a negative time signature
+fn must_reject(line: &str) -> bool {
+    if line.contains("//") {
+        return false;
+    }
+    let f: Vec<&str> = line.split(',').collect();
+    if f.len() < 3 || f.len() > 8 || plain_float(f[0]).is_none() || plain_float(f[1]).is_none() {
+        return false;
+    }
+    // (a field that starts with '0' selects the default 4/4 instead: legacy rule)
+    !f[2].starts_with('0') && matches!(plain_int(f[2]), Some(n) if n < 1)
+}
+
 fn prop_tp(mode: &str, hex_lines: &[&str]) -> String {
     if hex_lines.iter().any(|h| h.starts_with('g')) {
         return "SKIP general-lines".to_owned();
@@ -642,6 +661,9 @@ fn prop_tp(mode: &str, hex_lines: &[&str]) -> String {
                 }
             }
             None => {
+                if ok && must_reject(line) {
+                    return format!("FAIL line '{line}' accepted although its time signature is negative");
+                }
                 if ok {
                     return "SKIP accepted line outside the oracle's grammar".to_owned();
                 }
